@@ -172,6 +172,35 @@ def o_pair_loops(ctx):
     ctx.claim('coupling-search-visits-each-pair-once', pairs2 == [(0, 1), (0, 2), (1, 2)], detail=repr(pairs2))
 
 
+def o_pair_argument_order(ctx):
+    """the pair handlers receive the two groups in an order that follows from the order of the group list alone, never from
+    the residue identities: the (ordered) arguments handed to the asymmetric hydrogen-bond model and to the electrostatic
+    model are the same for every relabelling of the two residues (HIS/AMD: the only pair whose H-bond model is asymmetric)"""
+    import propka.determinants as D
+    p = H.params()
+    ids = [ident(ctx, t) for t in ('p', 'q')]
+    ctx.assume(Not(same(ids[0], ids[1])))
+    kinds = ctx.choice('kinds', [('HISGroup', 'HIS', 'NE2', 'AMDGroup', 'ASN', 'CG'), ('AMDGroup', 'GLN', 'CD', 'HISGroup', 'HIS', 'ND1'), ('COOGroup', 'ASP', 'CG', 'LYSGroup', 'LYS', 'NZ')])
+
+    def world(idents):
+        gs = [_group(kinds[0], kinds[1], kinds[2], idents[0], p=p), _group(kinds[3], kinds[4], kinds[5], idents[1], p=p)]
+        for k, g in enumerate(gs):
+            g.titratable = kinds[3 * k] != 'AMDGroup'
+            g.charge = {'HISGroup': 1, 'LYSGroup': 1, 'COOGroup': -1, 'AMDGroup': 0}[kinds[3 * k]]
+            H.set_xyz(g, 3.0 * k, 0.0, 0.0)
+        calls = []
+        v = H.version(p)
+        v.hydrogen_bond_interaction = lambda a, b: calls.append(('hb', gs.index(a), gs.index(b))) or 0.0
+        v.electrostatic_interaction = lambda a, b, d: calls.append(('el', gs.index(a), gs.index(b))) or None
+        D.set_determinants(gs, v)
+        return calls
+    got = world(ids)
+    ref = world([('A', 10, ' '), ('A', 20, ' ')])
+    ref2 = world([('B', 20, ' '), ('A', 10, ' ')])
+    ctx.claim('reference-numberings-agree', ref == ref2)
+    ctx.claim('argument-order-independent-of-residue-identity', got == ref, detail='%r vs %r' % (got, ref))
+
+
 def o_find_group(ctx):
     """ConformationContainer.find_group / top_up_from_atoms identify an
     atom/group across conformations by residue: match iff same residue"""
@@ -269,6 +298,10 @@ def obligations(tier):
         Obligation('O2-pair-loops', o_pair_loops, code=['propka/determinants.py:set_determinants', 'propka/coupled_groups.py:NonCovalentlyCoupledGroups.identify_non_covalently_coupled_groups'],
                    bounds='3 groups with pairwise distinct symbolic residue identities', shims=['pair handlers replaced by recorders'],
                    claim_doc='every unordered pair visited exactly once', outside=kf, max_paths=50000, shards=8, wall_s=170),
+        Obligation('O2-pair-argument-order', o_pair_argument_order, code=['propka/determinants.py:set_determinants', 'propka/determinants.py:add_determinants', 'propka/determinants.py:add_sidechain_determinants',
+                                                                                 'propka/determinants.py:add_coulomb_determinants'],
+                   bounds='two groups (HIS+AMD in both list orders, COO+LYS) with symbolic residue identities (chain, number in [-999,9999], insertion code)', shims=['hydrogen_bond_interaction / electrostatic_interaction -> recorders of their ordered arguments'],
+                   claim_doc='the ordered argument pairs are those of the reference numbering', max_paths=20000),
         Obligation('O3-residue-label', o_residue_label_from_line, code=['propka/atom.py:Atom.__init__', 'propka/atom.py:Atom.set_properties'],
                    bounds='two PDB lines with symbolic 2-digit residue number, chain, insertion code', claim_doc='residue_label equal <=> same residue', outside=kf),
         Obligation('O3-find-group-and-top-up', o_find_group, code=['propka/conformation_container.py:ConformationContainer.find_group',
